@@ -44,7 +44,7 @@ type zvC30LSP struct {
 	AreaLens []int    `json:"area_lengths"`
 	NAddrs   int      `json:"n_addresses"`
 	PfxLens  []int    `json:"ip_reach_prefix_lengths"`
-	Neigh    [][2]int `json:"neighbours"` // per neighbour: number of interface-address and neighbour-address sub-TLVs (+ the link-local/remote-id sub-TLV)
+	Neigh    [][2]int `json:"neighbours"`      // per neighbour: number of interface-address and neighbour-address sub-TLVs (+ the link-local/remote-id sub-TLV)
 	Host     int      `json:"hostname_length"` // -1 = no hostname TLV
 }
 
@@ -270,6 +270,7 @@ func zvC30PDUName(entry string, in []byte) string {
 
 func zvC30DecodeOne(r *vh.Run, st *zvC30Stats, entry string, in []byte, origin string) {
 	st.evals++
+	st.count("decode_calls")
 	var pkt *ISISPacket
 	var l2 *L2Hello
 	var err error
@@ -282,7 +283,9 @@ func zvC30DecodeOne(r *vh.Run, st *zvC30Stats, entry string, in []byte, origin s
 			l2, err = DecodeL2Hello(bytes.NewBuffer(data))
 		}
 	})
-	mk := func() zvC30Case { return zvC30Case{Part: "decode", Entry: entry, Hex: hex.EncodeToString(in), Origin: origin} }
+	mk := func() zvC30Case {
+		return zvC30Case{Part: "decode", Entry: entry, Hex: hex.EncodeToString(in), Origin: origin}
+	}
 	switch {
 	case p:
 		r.Violation(vh.Sig("clause", "decode_panic", "pdu", zvC30PDUName(entry, in), "panic", zvC30PanicClass(what)), mk(), "%s of %d bytes (%s) panicked: %s", entry, len(in), origin, what)
@@ -671,6 +674,10 @@ func zvC30HelloOne(r *vh.Run, st *zvC30Stats, s zvC30Hello) {
 	st.evals++
 	st.nontrivial++
 	h := zvC30BuildHello(&s)
+	st.count("hello_checked")
+	if s.Adj > 0 {
+		st.count("hello_with_neighbour_checked")
+	}
 	_, ok := zvC30RoundTrip(r, zvC30Case{Part: "hello", Hello: &s}, "hello", P2P_HELLO, h, h.TLVs, func() uint16 { return h.PDULength }, func(dec interface{}) string {
 		d, ok := dec.(*P2PHello)
 		if !ok {
@@ -683,9 +690,6 @@ func zvC30HelloOne(r *vh.Run, st *zvC30Stats, s zvC30Hello) {
 	})
 	if ok {
 		st.count("hello_round_trip_ok")
-		if s.Adj > 0 {
-			st.count("hello_with_neighbour_round_trip_ok")
-		}
 	}
 }
 
@@ -693,6 +697,13 @@ func zvC30LSPOne(r *vh.Run, st *zvC30Stats, s zvC30LSP) {
 	st.evals++
 	st.nontrivial++
 	l := zvC30BuildLSP(&s)
+	st.count("lsp_checked")
+	if s.Host == 255 {
+		st.count("lsp_hostname_255_checked")
+	}
+	if len(s.Neigh) == 3 {
+		st.count("lsp_three_neighbours_checked")
+	}
 	_, ok := zvC30RoundTrip(r, zvC30Case{Part: "lsp", LSP: &s}, "lsp", L2_LS_PDU_TYPE, l, l.TLVs, func() uint16 { return l.Length }, func(dec interface{}) string {
 		d, ok := dec.(*LSPDU)
 		if !ok {
@@ -706,12 +717,6 @@ func zvC30LSPOne(r *vh.Run, st *zvC30Stats, s zvC30LSP) {
 	})
 	if ok {
 		st.count("lsp_round_trip_ok")
-		if s.Host == 255 {
-			st.count("lsp_hostname_255_round_trip_ok")
-		}
-		if len(s.Neigh) == 3 {
-			st.count("lsp_three_neighbours_round_trip_ok")
-		}
 	}
 }
 
@@ -740,6 +745,7 @@ func zvC30SNPOne(r *vh.Run, st *zvC30Stats, s zvC30SNP) {
 	if per > 15 && s.N > 15 {
 		st.count("snp_more_entries_than_one_tlv_can_describe")
 	}
+	st.count(s.Kind + "_set_checked")
 	src := types.SourceID{SystemID: zvC30SysID(1)}
 	var csnps []CSNP
 	var psnps []PSNP
@@ -950,9 +956,9 @@ func zvC30RoundTripPart(r *vh.Run, item *int) bool {
 	return false
 }
 
-var zvC30Counters = []string{"decode_returned_error", "decode_returned_pdu", "decode_returned_pdu_with_body", "truncated_input", "length_byte_with_cut_packet", "length_byte_with_extended_packet",
-	"two_length_bytes_changed", "tlv_grid", "hello_round_trip_ok", "hello_with_neighbour_round_trip_ok", "lsp_round_trip_ok", "lsp_hostname_255_round_trip_ok", "lsp_three_neighbours_round_trip_ok",
-	"csnp_pdu_round_trip_ok", "psnp_pdu_round_trip_ok", "csnp_set_content_ok", "psnp_set_content_ok", "snp_needs_several_pdus", "snp_last_pdu_partially_filled", "snp_more_entries_than_one_tlv_can_describe"}
+var zvC30Counters = []string{"decode_calls", "truncated_input", "length_byte_with_cut_packet", "length_byte_with_extended_packet",
+	"two_length_bytes_changed", "tlv_grid", "hello_checked", "hello_with_neighbour_checked", "lsp_checked", "lsp_hostname_255_checked", "lsp_three_neighbours_checked",
+	"csnp_set_checked", "psnp_set_checked", "snp_needs_several_pdus", "snp_last_pdu_partially_filled", "snp_more_entries_than_one_tlv_can_describe"}
 
 func TestVerifC30(t *testing.T) {
 	r := vh.Start(t, "C30")
